@@ -392,7 +392,7 @@ func init() {
 		Stub:        []string{"TCP link (simulated reader: chunking, stalls, injected I/O error, early EOF)", "peer / message router (frames are decoded, not dispatched)"},
 		Assumptions: []string{"checksum collisions (2^-32 per corrupted payload) are decided by the model reader, not assumed away", "allocation guard: ReadMessage may allocate at most the payload limit (30 MiB) + 1 MiB before it verifies the checksum; the figure comes from the task statement, the property text only promises rejection", "counts in (2^16, 2^46) reaching an unguarded make() in the transaction decoder are not executed (process abort); counted as dangerous_count_not_executed"},
 		QuickRuns:   1200, ThoroughRuns: 100000, QuickCap: 60, ThoroughCap: 800,
-		RequiredProbes: []string{"kind_version", "kind_verack", "kind_getaddr", "kind_addr", "kind_ping", "kind_pong", "kind_getheaders", "kind_headers", "kind_inv", "kind_getdata", "kind_block", "kind_tx", "kind_consensus", "kind_getblocks", "kind_notfound", "kind_disconnect", "cmd_corrupted_to_other_known_command", "cmd_padding_corrupted", "cmd_padding_corruption_rejected", "cmd_garbage_after_nul_rejected", "length_consumes_next_frame", "length_above_limit_rejected", "checksum_field_corrupted", "short_read_inside_header", "spliced_second_frame_ok", "payload_count_huge"},
+		RequiredProbes: []string{"kind_version", "kind_verack", "kind_getaddr", "kind_addr", "kind_ping", "kind_pong", "kind_getheaders", "kind_headers", "kind_inv", "kind_getdata", "kind_block", "kind_tx", "kind_consensus", "kind_getblocks", "kind_notfound", "kind_disconnect", "cmd_corrupted_to_other_known_command", "cmd_padding_corrupted", "cmd_padding_corruption_rejected", "cmd_garbage_after_nul_rejected", "length_consumes_next_frame", "length_above_limit_rejected", "checksum_field_corrupted", "short_read_inside_header", "spliced_second_frame_ok", "payload_count_huge", "off_curve_key_message_submitted"},
 		Generate:       genC05,
 		Execute:        execC05,
 		NoMinimise:     noMin,
@@ -1022,6 +1022,11 @@ func (c *c05ctx) adversarial(mc *msgCase, rng *kernel.RNG, rdr func([]byte, int,
 					return false
 				}
 				if err != nil || describeMsg(g2) != describeMsg(got) {
+					if msgOffCurve(got) {
+						run.Probe("off_curve_key_message_not_reframable")
+						c.fail(offCurveKeyPrefix+mc.cmd, "%s: ReadMessage accepted a %s message carrying a public key that is not on its curve (uncompressed encoding, unchecked by keypair.DeserializePublicKey); its re-serialisation (compressed key) is rejected: %v", label, mc.cmd, err)
+						return true // known cause; keep judging the other variants
+					}
 					c.fail("reencode-not-idempotent", "%s: accepted %s message does not survive encode/decode (err=%v)", label, mc.cmd, err)
 					return false
 				}
@@ -1054,6 +1059,23 @@ func (c *c05ctx) adversarial(mc *msgCase, rng *kernel.RNG, rdr func([]byte, int,
 		}
 		fire("payload_corrupted_valid_checksum")
 		if !try(fmt.Sprintf("%s payload flip#%d", mc.cmd, j), d) {
+			return
+		}
+	}
+	// a carried public key re-encoded in the uncompressed forms: on the curve (must be accepted and
+	// stay re-frameable) and off the curve (if accepted, the message cannot be framed again)
+	for vi, v := range [][2]bool{{false, false}, {false, true}, {true, false}, {true, true}} {
+		d, ok := swapFirstKey(p, v[0], v[1])
+		if !ok {
+			break
+		}
+		if v[0] {
+			fire("off_curve_public_key")
+			run.Probe("off_curve_key_message_submitted")
+		} else {
+			fire("uncompressed_public_key")
+		}
+		if !try(fmt.Sprintf("%s key variant %d (offcurve=%v typed=%v)", mc.cmd, vi, v[0], v[1]), d) {
 			return
 		}
 	}
@@ -1122,3 +1144,22 @@ func (c *c05ctx) adversarial(mc *msgCase, rng *kernel.RNG, rdr func([]byte, int,
 }
 
 var _ = types.Invoke
+
+// msgOffCurve: does the decoded message carry a public key that is not on its curve?
+func msgOffCurve(m mt.Message) bool {
+	switch v := m.(type) {
+	case *mt.Consensus:
+		return offCurve(v.Cons.Owner)
+	case *mt.Trn:
+		return txOffCurve(v.Txn)
+	case *mt.Block:
+		return blockOffCurve(v.Blk)
+	case *mt.BlkHeader:
+		for _, h := range v.BlkHdr {
+			if hdrOffCurve(h) {
+				return true
+			}
+		}
+	}
+	return false
+}
